@@ -80,6 +80,27 @@ ok = ok_validate(U, w)
 return ok, "accept"
 """, ("accept",), [WPRE])
 
+add("union.bare.any.operand", UP, OPS + """
+# the bare any (no alternatives) accepts every value; as an operand of | in any position the union accepts everything
+E = schema.any
+U1 = E | A
+U2 = A | E
+U3 = (E | A) | B
+U4 = schema.any(E) | D
+U5 = schema.dict({"k": E | A})
+ok = ok_validate(E, w) and ok_validate(U1, w) and ok_validate(U2, w) and ok_validate(U3, w) and ok_validate(U4, w)
+ok = ok and ok_validate(U5, {"k": w})
+return ok, ("Arejects" if not accA else "Aaccepts")
+""", ("Arejects", "Aaccepts"), [WPRE])
+
+add("union.any.of.one", UP, OPS + """
+# a one-alternative any as the left operand: means exactly its alternative
+U = schema.any(A) | B
+V = schema.any(schema.any(A)) | B | schema.any(C)
+ok = ok_validate(U, w) == (accA or accB) and ok_validate(V, w) == (accA or accB or accC)
+return ok, ("accept" if (accA or accB or accC) else "reject")
+""", ("accept", "reject"), [WPRE])
+
 add("union.pinned", "x: int, b: bool, w: " + WILD, """
 A = schema.int(x)
 B = schema.bool(b)
